@@ -141,6 +141,16 @@ def collapse_signatures(by_sig):
                 if plain in by_sig:
                     remap[sig] = '|'.join(parts[:i] + ['any'] + parts[i + 1:])
                 break
+    # the fingerprint-0 class of a series case says nothing when the same failure shows on other cases as well
+    new = {remap.get(s_, s_) for s_ in by_sig}
+    for sig in by_sig:
+        parts = sig.split('|')
+        if len(parts) == 3 and parts[1] in ('fp0-first', 'fp0-later'):
+            cands = sorted(s_ for s_ in new if s_.startswith(parts[0] + '|general|') and s_.endswith('|' + parts[2]))
+            if len(cands) == 1:
+                remap[sig] = cands[0]
+            elif cands:
+                remap[sig] = '%s|general|any|%s' % (parts[0], parts[2])
     return remap
 
 
